@@ -89,3 +89,22 @@ theorem segs_vol_complete (g : Geo) (hbpv : 0 < g.bpv) (bx by_ bz x y z c : Int)
   omega
 
 end Dvid.ImageBlk
+
+namespace Dvid.ImageBlk
+
+/-! ### the write direction: the same row segments, copied from the request buffer into the block -/
+
+/-- a row segment seen from the block side -/
+def Seg.swap (sg : Seg) : Seg := { dataI := sg.blockI, blockI := sg.dataI, len := sg.len }
+
+theorem segs_vol_sound_blk (g : Geo) (hbpv : 0 < g.bpv) (bx by_ bz : Int) (sg : Seg)
+    (hsg : sg ∈ segs .vol g bx by_ bz) (q : Int) (hq : sg.swap.covers q) :
+    ∃ x y z c, InReq g x y z ∧ InBlk g bx by_ bz x y z ∧ 0 ≤ c ∧ c < g.bpv ∧
+      q = blockIdx g bx by_ bz x y z c ∧ sg.dataI + (q - sg.blockI) = dataIdx g x y z c := by
+  unfold Seg.covers Seg.swap at hq
+  simp only at hq
+  have hp : sg.covers (sg.dataI + (q - sg.blockI)) := by unfold Seg.covers; omega
+  obtain ⟨x, y, z, c, hr, hb, hc0, hc1, hd, hbI⟩ := segs_vol_sound g hbpv bx by_ bz sg hsg _ hp
+  exact ⟨x, y, z, c, hr, hb, hc0, hc1, by omega, hd⟩
+
+end Dvid.ImageBlk
